@@ -1295,7 +1295,7 @@ Proof.
       unfold clean_ok. simpl. split; auto.
   - (* CBackoff *)
     destruct Hok as (Hlt & Hpe & Hst & Hmp).
-    destruct ch; inversion H; subst; clear H.
+    destruct ch; [|rewrite (close_failed_recovery_owner _ _ _ _ Hmp) in H]; inversion H; subst; clear H.
     + change (Inv (set_clean (with_status s (s_status s)) i (Some CWake))).
       apply (clean_move_Inv s i CBackoff CWake _ HI Hc eq_refl); [discriminate| |discriminate|exact I].
       unfold clean_ok. simpl. repeat split; auto.
@@ -1395,7 +1395,7 @@ Proof.
       pose proof (get_run_some _ _ _ Ei). subst xi. inversion H; subst; clear H.
       apply (nested_register_Inv s i r _ HI Hc).
   - (* CFailed *)
-    destruct Hok as (Hlt & Hpe & Hst & Hmp). inversion H; subst; clear H.
+    destruct Hok as (Hlt & Hpe & Hst & Hmp). rewrite (close_failed_recovery_owner _ _ _ _ Hmp) in H. inversion H; subst; clear H.
     apply (clean_move_Inv s i CFailed (CTail1 ResRecovery) Degraded HI Hc eq_refl); [discriminate| |reflexivity|exact I].
     unfold clean_ok. simpl. split; auto.
   - (* CTail1 *)
@@ -1542,7 +1542,7 @@ Proof.
             try (eapply GG_ext; [| | |exact HS1]; reflexivity).
           match goal with E : get_run s1 r = Some ?x |- _ => apply get_run_some in E; subst end.
           eapply GG_ext; [| | |apply (GG_upd_same s1 r); [exact HS1|]]; reflexivity. }
-    all: rewrite ?Hv in H; split_hyp H; try discriminate; inversion H; subst; clear H;
+    all: unfold close_failed_recovery in H; rewrite ?Hv in H; split_hyp H; try discriminate; inversion H; subst; clear H;
       try (eapply GG_ext; [| | |exact HG]; reflexivity).
     all: unfold finish_clean; (eapply GG_ext; [| | |apply (GG_upd_same s r); [exact HG|]]; reflexivity).
   - (* AOpen *)
